@@ -1,5 +1,6 @@
 import CkbVerif.Lemmas.Rules
 import CkbVerif.Lemmas.RulesChain
+import CkbVerif.Lemmas.RulesIndex
 
 /-!
 # C03 — a block joins the main chain iff it meets every consensus rule in its context
@@ -36,6 +37,19 @@ What is proved here, for all blocks, contexts and configurations (no bounds):
 * `main_chain_blocks_passed_all_stages_partial` — by induction over arbitrary submission histories:
   every main-chain block passed the header, non-contextual and contextual stages in the context of
   its own ancestors (for histories without two bodies under one hash).
+* `context_depends_only_on_main_chain`, `verdict_is_function_of_block_and_main_chain` — the store
+  indexes the contextual verifier reads (`COLUMN_INDEX` both ways, `COLUMN_UNCLES`,
+  `COLUMN_TRANSACTION_INFO`, the epoch-number rows), maintained by `attach_block` / `detach_block`
+  through any history of extensions, reorgs and switch-backs, equal the indexes of a store that
+  attached the final main chain from the genesis block and never saw another branch; hence two
+  histories that end in the same main chain give every block the same verdict.
+  `accepted_uncles_write_fresh_keys` — the freshness the theorem needs for the uncle column is what
+  the double-inclusion rule enforces. `stale_uncle_index_breaks_context_witness` — the seeded variant
+  (detach leaves the uncle rows) breaks it: a valid block of the new branch is refused with
+  `DoubleInclusion` and an uncle descending from a stale row is accepted.
+  `index_context_is_ancestor_context_partial`, `main_chain_uncles_valid_in_index_context_partial` —
+  the index context and the ancestor context of `Model/Rules.lean` agree on `get_block_number` and
+  `get_uncle_header`, so the uncle verdict of the two is the same.
 -/
 namespace CkbVerif.C03
 open CkbVerif.Rules CkbVerif.Window
@@ -382,5 +396,132 @@ example :
     let ops : List (Nat × Blk) := [(200, mk 1 0 1 101), (200, mk 2 1 2 102), (200, { mk 3 1 2 103 with daoEq := false }),
       (200, mk 4 3 3 104), (200, mk 5 2 3 104)]
     (mainChain (run cfg0 (St.init g0) ops)).map (·.id) = [5, 2, 1, 0] := by decide
+
+/-! ## context-dependence across reorgs: the indexes maintained by attach / detach -/
+
+/-- **After every history of new-best-block events (plain extensions, reorgs A → B, switch-backs
+A → B → A′, any depth) the indexes the contextual verifier reads — `get_block_hash`,
+`get_block_number` / `is_main_chain`, `is_uncle` / `get_uncle_header`, `get_transaction_info`, the
+epoch-number rows — are exactly those of a store that attached the final main chain from the genesis
+block and never saw any other branch.** `StepsOk`: every intermediate main chain writes fresh keys
+when attached in order (hashes, numbers and transaction hashes do not repeat along one chain, no
+uncle is embedded twice — see `accepted_uncles_write_fresh_keys`). -/
+theorem context_depends_only_on_main_chain (g : Blk) (steps : List (Nat × List Blk))
+    (hok : StepsOk g ⟨[], idxInit g⟩ steps) :
+    (runReorgs g steps).idx = idxOfChain g (runReorgs g steps).chain :=
+  (runReorgs_inv g steps ⟨[], idxInit g⟩ rfl trivial hok).1
+
+/-- Hence the verdict of any block is a function of the block, the stored bodies and the main chain:
+two histories that end in the same main chain — one of them may be the reorg-free one — give the
+same contextual verdict, whatever branches were attached and abandoned on the way. -/
+theorem verdict_is_function_of_block_and_main_chain (cfg : Cfg) (g : Blk) (steps₁ steps₂ : List (Nat × List Blk))
+    (h₁ : StepsOk g ⟨[], idxInit g⟩ steps₁) (h₂ : StepsOk g ⟨[], idxInit g⟩ steps₂)
+    (hsame : (runReorgs g steps₁).chain = (runReorgs g steps₂).chain) (st : List Blk) (p b : Blk) :
+    contextualCheck cfg (cxOfIdx st (runReorgs g steps₁).idx p) b =
+      contextualCheck cfg (cxOfIdx st (runReorgs g steps₂).idx p) b := by
+  rw [context_depends_only_on_main_chain g steps₁ h₁, context_depends_only_on_main_chain g steps₂ h₂, hsame]
+
+/-- The uncle part of `StepsOk` is enforced by the verifier itself: a block whose uncle rules pass
+in the index context embeds only uncles that have no row in `COLUMN_UNCLES` (and are not main-chain
+blocks), so attaching it writes fresh uncle keys. -/
+theorem accepted_uncles_write_fresh_keys (cfg : Cfg) (st : List Blk) (x : Idx) (p b : Blk)
+    (h : unclesCheck cfg (cxOfIdx st x p) b = none) :
+    ∀ r ∈ b.rowsUncle, x.uncle r.1 = none ∧ x.numOf r.1 = none := by
+  intro r hr
+  obtain ⟨u, hu, rfl⟩ := List.mem_map.mp hr
+  obtain ⟨pre, post, hsplit⟩ := List.append_of_mem hu
+  have hf := (uncles_accept_facts h).2 pre u post hsplit
+  exact ⟨hf.2.2.2.2.2.2.1, hf.2.2.2.2.2.1⟩
+
+/-! the history of the seeded change `r2m2`: `g ← A1 ← A2{U}` is the main chain, `g ← B1 ← B2 ← B3`
+becomes the heaviest; `B4{U}` is valid on B (nobody on B embedded `U`), `B4′{V}` with `V` a child of
+`U` is not (`U` is unknown on B) -/
+def rU : Uncle := { id := 9, parent := 0, number := 1, epochNumber := 0, target := 0 }
+def rV : Uncle := { id := 10, parent := 9, number := 2, epochNumber := 0, target := 0 }
+def rA1 : Blk := mk 1 0 1 101
+def rA2 : Blk := { mk 2 1 2 102 with uncles := [rU] }
+def rB1 : Blk := mk 3 0 1 103
+def rB2 : Blk := mk 4 3 2 104
+def rB3 : Blk := mk 5 4 3 105
+def rB4 : Blk := { mk 6 5 4 106 with uncles := [rU] }
+def rB4' : Blk := { mk 7 5 4 107 with uncles := [rV] }
+def rSteps : List (Nat × List Blk) := [(0, [rA1]), (1, [rA2]), (0, [rB1, rB2, rB3])]
+def rStore : List Blk := [g0, rA1, rA2, rB1, rB2, rB3]
+
+/-- non-vacuity of `context_depends_only_on_main_chain`: the reorg history above satisfies `StepsOk`,
+ends on B, and the uncle row of the detached A2 is gone while B's rows are there -/
+example : StepsOk g0 ⟨[], idxInit g0⟩ rSteps ∧ (runReorgs g0 rSteps).chain.map (·.id) = [3, 4, 5] ∧
+    (runReorgs g0 rSteps).idx.uncle 9 = none ∧ (runReorgs g0 rSteps).idx.numOf 2 = none ∧
+    (runReorgs g0 rSteps).idx.numOf 5 = some 3 ∧ (runReorgs g0 rSteps).idx.hashAt 2 = some 4 := by
+  decide
+
+/-- and a switch-back A → B → A′ after it: A2's uncle row is back -/
+example :
+    let steps := rSteps ++ [(0, [rA1, rA2, mk 11 2 3 111, mk 12 11 4 112])]
+    StepsOk g0 ⟨[], idxInit g0⟩ steps ∧ (runReorgs g0 steps).chain.map (·.id) = [1, 2, 11, 12] ∧
+    (runReorgs g0 steps).idx.uncle 9 = some 1 ∧ (runReorgs g0 steps).idx.numOf 5 = none := by
+  decide
+
+/-- **The seeded variant breaks it** (`detach_block` leaves the detached blocks' rows in
+`COLUMN_UNCLES`): same history, same main chain, but the index still claims `U`; the valid `B4{U}` is
+refused with `DoubleInclusion`, and `B4′{V}`, whose uncle descends from the stale row, passes the
+descent rule — with the code as it is the verdicts are the opposite ones. -/
+theorem stale_uncle_index_breaks_context_witness :
+    let good := runReorgs g0 rSteps
+    let bad := runReorgsWith detachIdxStaleUncles ⟨[], idxInit g0⟩ rSteps
+    good.chain.map (·.id) = bad.chain.map (·.id) ∧
+    good.idx.uncle 9 = none ∧ (idxOfChain g0 bad.chain).uncle 9 = none ∧ bad.idx.uncle 9 = some 1 ∧
+    contextualCheck cfg0 (cxOfIdx rStore good.idx rB3) rB4 = none ∧
+    contextualCheck cfg0 (cxOfIdx rStore bad.idx rB3) rB4 = some .uncleDoubleInclusion ∧
+    contextualCheck cfg0 (cxOfIdx rStore good.idx rB3) rB4' = some .uncleDescendant ∧
+    contextualCheck cfg0 (cxOfIdx rStore bad.idx rB3) rB4' = none := by decide
+
+/-- **The index context is the ancestor context** of `Model/Rules.lean` as far as the uncle rules
+read it: on the index of a store that attached the chain `anc` (newest first, genesis last) and
+nothing else, `get_block_number` and `get_uncle_header` answer what `cxOf` computes from the
+ancestors, so the uncle verdict is the same.
+
+`_partial`: the proposal walk (`Cx.chain`, read through `get_block_hash`) is not covered by this
+theorem — its agreement with the ancestor walk is tested by the correspondence only. -/
+theorem index_context_is_ancestor_context_partial (cfg : Cfg) (st : List Blk) (p b : Blk)
+    (hf : UncleIdsFunctional ((ancestors st (p.number + 1) p.id).flatMap (·.uncles))) :
+    (cxOfIdx st (idxOfAnc (ancestors st (p.number + 1) p.id)) p).mainNum = (cxOf st p).mainNum ∧
+    (cxOfIdx st (idxOfAnc (ancestors st (p.number + 1) p.id)) p).uncleNum = (cxOf st p).uncleNum ∧
+    unclesCheck cfg (cxOfIdx st (idxOfAnc (ancestors st (p.number + 1) p.id)) p) b = unclesCheck cfg (cxOf st p) b := by
+  have h1 : (cxOfIdx st (idxOfAnc (ancestors st (p.number + 1) p.id)) p).mainNum = (cxOf st p).mainNum := by
+    funext h; simp only [cxOfIdx, cxOf]; exact idxOfAnc_numOf _ h
+  have h2 : (cxOfIdx st (idxOfAnc (ancestors st (p.number + 1) p.id)) p).uncleNum = (cxOf st p).uncleNum := by
+    funext h; simp only [cxOfIdx, cxOf]; exact idxOfAnc_uncle _ h hf
+  exact ⟨h1, h2, unclesCheck_congr cfg _ _ b h1 h2⟩
+
+example : (cxOfIdx rStore (idxOfAnc (ancestors rStore 4 5)) rB3).mainNum 4 = some 2 ∧
+    (cxOf rStore rB3).mainNum 4 = some 2 ∧ (cxOf rStore rB3).uncleNum 9 = none ∧ (cxOf rStore rA2).uncleNum 9 = some 1 ∧
+    (cxOfIdx rStore (idxOfAnc (ancestors rStore 3 2)) rA2).uncleNum 9 = some 1 := by decide
+
+/-- **Every main-chain block passed the uncle rules in the context of the store indexes**, whatever
+reorg history the store went through: after any submission history (`OneBody`) and for the index of
+ANY reorg history that ends in the block's own ancestor chain (`context_depends_only_on_main_chain`
+reduces them all to `idxOfChain`), the uncle verdict read from the index is "accepted".
+
+`_partial`: strengthens `main_chain_blocks_passed_all_stages_partial` for the uncle rules only; the
+two-phase-commit walk through `get_block_hash`, the cell set, the MMR and the epoch records are not
+part of the index model (oracle inputs / other properties), and `OneBody` stays. -/
+theorem main_chain_uncles_valid_in_index_context_partial (cfg : Cfg) (g : Blk) (hg0 : g.number = 0)
+    (ops : List (Nat × Blk)) (hob : OneBody (g :: ops.map (·.2))) :
+    let s := run cfg (St.init g) ops
+    ∀ x ∈ mainChain s, x.number ≠ 0 →
+      ∃ p, findBlk s.stored x.parent = some p ∧ p ∈ mainChain s ∧
+        (UncleIdsFunctional ((ancestors s.stored (p.number + 1) p.id).flatMap (·.uncles)) →
+          unclesCheck cfg (cxOfIdx s.stored (idxOfAnc (ancestors s.stored (p.number + 1) p.id)) p) x = none) := by
+  intro s x hx h0
+  obtain ⟨p, hp, hpm, _, _, hc⟩ := main_chain_blocks_passed_all_stages_partial cfg g hg0 ops hob x hx h0
+  refine ⟨p, hp, hpm, fun hf => ?_⟩
+  rw [(index_context_is_ancestor_context_partial cfg s.stored p x hf).2.2]
+  have hcr := (contextual_iff_rules cfg (cxOf s.stored p) x).mp hc
+  have : firstFail (unclesRules cfg (cxOf s.stored p) x) = none := by
+    rw [firstFail_none_iff]
+    intro r hr
+    exact hcr r (by simp only [contextualRules, List.mem_append]; grind)
+  rw [unclesCheck_eq]; exact this
 
 end CkbVerif.C03
